@@ -47,9 +47,13 @@ def walkEvs (ss : Scripts) : Nat → List LEv → List String → List LEv → L
 def walkEv (ss : Scripts) : Nat → LEv → List String → List LEv → List String → List String → List Obs × List String
   | 0, _, held, _, _, _ => ([], held)
   | fuel+1, e, held, closure, chain, guards =>
-    if e.kind == "lock" then ([⟨"acquire", e.a, held, chain, guards, ""⟩], (e.a ++ ":W") :: held)
-    else if e.kind == "rlock" then ([⟨"acquire", e.a, held, chain, guards, ""⟩], (e.a ++ ":R") :: held)
-    else if e.kind == "unlock" || e.kind == "runlock" then ([], removeOne held e.a)
+    -- a lock whose release is not deferred leaves a marker "~name" until it is released: such a
+    -- lock stays held if a panic unwinds through the section (`panicSafeOk`)
+    if e.kind == "lock" then ([⟨"acquire", e.a, held, chain, guards, ""⟩],
+      if e.b == "defer" then (e.a ++ ":W") :: held else ("~" ++ e.a) :: (e.a ++ ":W") :: held)
+    else if e.kind == "rlock" then ([⟨"acquire", e.a, held, chain, guards, ""⟩],
+      if e.b == "defer" then (e.a ++ ":R") :: held else ("~" ++ e.a) :: (e.a ++ ":R") :: held)
+    else if e.kind == "unlock" || e.kind == "runlock" then ([], (removeOne held e.a).erase ("~" ++ e.a))
     else if e.kind == "backend" then ([⟨"backend", e.a, held, chain, guards, e.b⟩], held)
     else if e.kind == "access" then ([⟨"access", e.a, held, chain, guards, ""⟩], held)
     else if e.kind == "param" then
@@ -129,9 +133,16 @@ def childMuBackendOk : Bool :=
   allObs.all fun o => o.kind != "backend" || !holds o.held "childMu" ||
     (o.held.contains "renameMu:W" && o.chain.contains "fidRef.renameChildTo")
 
+/-- **panic safety of the locking**: no backend call (the only code that may panic by contract –
+`handle` recovers and answers EFAULT) runs while a lock is held whose release is not deferred: a
+panic unwinding through such a section would leave the lock held for good. -/
+def panicSafeOk : Bool :=
+  allObs.all fun o => o.kind != "backend" || !(o.held.any fun h => h.startsWith "~")
+
 /-- all (held, acquired) pairs -/
 def nestings : List (String × String × List String) :=
-  (allObs.filter (·.kind == "acquire")).flatMap fun o => o.held.map fun h => ((h.dropRight 2), o.what, o.chain)
+  (allObs.filter (·.kind == "acquire")).flatMap fun o =>
+    (o.held.filter fun h => !h.startsWith "~").map fun h => ((h.dropRight 2), o.what, o.chain)
 
 def rank : String → Nat
   | "openedMu" => 0 | "renameMu" => 1 | "opMu" => 2 | "fidMu" => 3 | "childMu" => 4 | _ => 5
